@@ -77,6 +77,42 @@ GapBag == <<"zero", "dup", "dup", "mid", "mid", "far">>
 ChunkBag == <<"whole", "whole", "dribble", "esc", "k7", "straddle">>
 FilterClasses == <<"absent", "absent", "absent", "absent", "some", "some", "some", "empty", "other">>
 
+(* ---------------------------------------------------------------------- *)
+(* Fixed scenarios (GEN_FIXED=1, printed at constant level): shapes that   *)
+(* make particular wirings observable whatever the seed draws.             *)
+(*  F1 W=0: a frame on two receivers -> never merged                        *)
+(*  F2 W=120: X, (far) Y, (far) X again -> three records, nothing merged     *)
+(*  F3 W=200, df filter {17}: a DF4 frame the filter hides, then (far) two   *)
+(*     kept frames (far apart): the hidden record is certainly in the table *)
+(*  F4 W=200: X on rx1, rx2, rx1 (dup, mid) around an undecodable frame ->    *)
+(*     one record of three receptions                                        *)
+(* ---------------------------------------------------------------------- *)
+St(r, s, c, pay, dec, g) == [rx |-> r, fr |-> Frame(TypeFor(pay), s, c, pay), dec |-> dec, gap |-> g]
+FixedPush(n) == [round \in 1..3 |-> [r \in 1..n |-> PushFrame(r, round)]]
+Absent0 == <<>>
+Fixed == <<
+  [w |-> 0, nrx |-> 2, via |-> "cli", df_present |-> FALSE, df_list |-> <<>>, ac_present |-> FALSE, ac_list |-> <<>>,
+   chunk |-> <<"whole", "esc">>,
+   steps |-> << St(1, 1, 0, Pool[1], TRUE, "zero"), St(2, 2, 3, Pool[1], TRUE, "dup"),
+                St(1, 3, 1, Pool[4], TRUE, "mid"), St(2, 4, 2, Pool[4], TRUE, "zero") >>,
+   push |-> FixedPush(2)],
+  [w |-> 120, nrx |-> 2, via |-> "cli", df_present |-> FALSE, df_list |-> <<>>, ac_present |-> FALSE, ac_list |-> <<>>,
+   chunk |-> <<"dribble", "whole">>,
+   steps |-> << St(1, 1, 4, Pool[2], TRUE, "zero"), St(2, 2, 0, Pool[9], TRUE, "far"),
+                St(2, 3, 5, Pool[2], TRUE, "far") >>,
+   push |-> FixedPush(2)],
+  [w |-> 200, nrx |-> 1, via |-> "toml", df_present |-> TRUE, df_list |-> <<17>>, ac_present |-> FALSE, ac_list |-> <<>>,
+   chunk |-> <<"k7">>,
+   steps |-> << St(1, 1, 2, Pool[15], TRUE, "zero"), St(1, 2, 0, Pool[1], TRUE, "far"),
+                St(1, 3, 0, Pool[4], TRUE, "far") >>,
+   push |-> FixedPush(1)],
+  [w |-> 200, nrx |-> 2, via |-> "cli", df_present |-> FALSE, df_list |-> <<>>, ac_present |-> FALSE, ac_list |-> <<>>,
+   chunk |-> <<"straddle", "esc">>,
+   steps |-> << St(1, 1, 1, Pool[6], TRUE, "zero"), St(2, 2, 3, Pool[6], TRUE, "dup"),
+                St(2, 3, 0, BadPool[1], FALSE, "zero"), St(1, 4, 2, Pool[6], TRUE, "mid") >>,
+   push |-> FixedPush(2)] >>
+ASSUME Env("GEN_FIXED", 0) = 1 => \A x \in 1..Len(Fixed) : PrintT(ToJson(Fixed[x]))
+
 VARIABLES gw, gnrx, gvia, gdfc, gacc, gchunk, gn, gsteps, gpend, gdone
 gvars == <<gw, gnrx, gvia, gdfc, gacc, gchunk, gn, gsteps, gpend, gdone>>
 
